@@ -130,6 +130,18 @@ def inproc(ctx):
                 check=(positive(fo) or (cfg.get("threshold") or 0) > 0) and
                 not ((cfg.get("threshold") or 0) > 0 and height(fo) > (cfg.get("max_stack") or 1024))
                 and ((cfg.get("threshold") or 0) > 0 or positive(fo)))
+    # 5. filtered recordings (any -F/-N/-C/-D/-t/-Z and depth=/time=/size=/trace triggers, no trace_on/off):
+    #    the stream must be an embedded sub-history (theorem C02_filtered_trace_is_subhistory, checker ok_emb)
+    from . import c05 as _c05
+    for _ in range(ctx.n(40, 500)):
+        cfg = _c05.gen_cfg(rng)
+        for t in cfg["trig"].values():
+            t.pop("trace_on", None)
+            t.pop("trace_off", None)
+        fo = F.assign_times(rng, F.gen_shape(rng, 6, rng.choice([3, 8, 20]), 6), durs=_c05.DURS)
+        if height(fo) > (cfg.get("max_stack") or 1024):
+            cfg.pop("max_stack", None)
+        add(cfg, fo, F.flatten(fo), "filtered", check=False, tags=["trig:" + k for t in cfg["trig"].values() for k in t])
     # evaluate
     terms = []
     checks = []
@@ -137,6 +149,11 @@ def inproc(ctx):
         terms.append(mcgen.case_term(c["cfg"], c["evs"], c["res"]))
         if c["check"]:
             checks.append((i, coq_plain_check(c["cfg"], c["forest"], c["res"]["recs"])))
+        elif c["kind"] == "filtered":
+            checks.append((i, "ok_emb %s %s" % (F.coq_forest(c["forest"]), mcgen.coq_recs(c["res"]["recs"]))))
+        if c["check"] and c["kind"] == "random" and height(c["forest"]) <= (c["cfg"].get("max_stack") or 1024):
+            # plain option sets are switch-free too: the weaker statement must hold as well
+            checks.append((i, "ok_emb %s %s" % (F.coq_forest(c["forest"]), mcgen.coq_recs(c["res"]["recs"]))))
     fast_idx = [i for i, c in enumerate(cases) if "fast" in c["variant"]]
     defs = "Definition cases : list case4 := [\n%s\n].\n" % ";\n".join(terms)
     defs += "Definition isfast : list bool := [%s].\n" % "; ".join(coq.coq_bool("fast" in c["variant"]) for c in cases)
@@ -164,6 +181,7 @@ def inproc(ctx):
                        "impl_states": c["res"]["states"], "impl_records": c["res"]["recs"]}, False)
     ctx.extra["disagreements_checked"] = len(mism)
     ctx.extra["history_checks"] = len(checks)
+    ctx.extra["filtered_subhistory_checks"] = sum(1 for c in cases if c["kind"] == "filtered")
 
 
 def known_depth_overflow(ctx):
